@@ -13,20 +13,30 @@ theorem replProtocol_tie : Risor.Generated.C18.replCalls = replProtocol := by de
 /-- after a run-time error the REPL moves the ip to the end of the code (`Repl.feed`: `ip := code.length`) -/
 theorem replSetsIP_tie : Risor.Generated.C18.replSetsIPAfterError = true := by decide
 
-/-- (*VirtualMachine).Run resumes (resetState = false): the stack and the ip survive between pieces -/
+/-- (*VirtualMachine).Run resumes (resetState = false): the ip survives between pieces … -/
 theorem runKeepsState_tie : Risor.Generated.C18.runResetsState = false := by decide
+
+/-- … and the operand stack does NOT: on the resuming path runCodeInternal pops it empty before the
+    entrypoint is activated (`Repl.feed` runs every piece from `[]`; repair of C18-stack-slot-per-piece) -/
+theorem runStartsOnEmptyStack_tie : Risor.Generated.C18.runStartsOnEmptyStack = runStartsOnEmptyStack := by decide
 
 /-- reloadCode gives the main code a fresh Globals slice and copies the old values into it by
     position — Go's `copy`, the model's `copyInto` in `reloadBySlot` (layer 7)
     (functions loaded earlier keep the old slice: `VM.old`) -/
 theorem reloadCopies_tie : Risor.Generated.C18.reloadCopiesGlobals = true := by decide
 
-/-- Compile has no rollback: it assigns nothing but the failure flag, the source and the filename -/
-theorem compileNoRollback_tie : Risor.Generated.C18.compileAssigns = compileAssigns := by decide
+/-- Compile rolls back on error (`Repl.feed`: a rejected piece leaves the machine as it was; repair of
+    C18-rejected-piece-code-runs-later): the mark is taken first, every error return follows
+    `c.main.rollback(mark)`, and rollback / truncate restore the instructions, constants, names, child codes,
+    source, the symbols (with their names) and the child tables of the root symbol table -/
+theorem compileRollsBack_tie :
+    Risor.Generated.C18.compileRollsBackOnError = compileRollsBackOnError ∧
+    Risor.Generated.C18.rollbackRestores = rollbackRestores ∧
+    Risor.Generated.C18.truncateRestores = truncateRestores := by decide
 
-/-- compile-only state (layer 3, `Mark.restored`): `pipeActive`, `loops`, `symbols` and
-    `pendingSwitchValues` are reset by a deferred function in every compile function that sets them,
-    `Compiler.current` is not -/
+/-- compile-only state (layer 3, `Mark.restored`): `pipeActive`, `loops`, `symbols`,
+    `pendingSwitchValues` and — since the repair of C18-compiler-stuck-in-function — `Compiler.current`
+    are reset by a deferred function in every compile function that sets them -/
 theorem compileOnlyRestores_tie : Risor.Generated.C18.compileOnlyRestores = compileOnlyRestores := by decide
 
 /-- `start` clears the halt flag for every context (layer 5, `startClearsHalt`) -/
